@@ -92,6 +92,9 @@ Min3(a, b, c) == Min(a, Min(b, c))
 SignChangeAcross(s) == (Sgn(s[2]) = -1 /\ Sgn(s[4]) = 1) \/ (Sgn(s[2]) = 1 /\ Sgn(s[4]) = -1) \/ IsZero(s[3])
 RisingAcross(s)  == Le(s[2], Zero) /\ Ge(s[4], Zero) /\ Lt(s[2], s[4])
 FallingAcross(s) == Ge(s[2], Zero) /\ Le(s[4], Zero) /\ Gt(s[2], s[4])
+\* sharp form for extremum kinds: dl dr = change of the quantity over a short central difference at r - tol and r + tol
+MaxWithinTol(dl, dr) == Ge(dl, Zero) /\ Le(dr, Zero)
+MinWithinTol(dl, dr) == Le(dl, Zero) /\ Ge(dr, Zero)
 MaxInside(s) == Ge(Max3(s[2], s[3], s[4]), Max(s[1], s[5]))
 MinInside(s) == Le(Min3(s[2], s[3], s[4]), Min(s[1], s[5]))
 =============================================================================
